@@ -1570,24 +1570,29 @@ def normalize(project) -> List[str]:
     except OSError:
         return []
     renamed = recover_renamed_anchors(project)
-    from .normalize2 import simplify_defensive, recover_loops, hoist_lambda_calls, sink_loop_exit, unroll_search_loops, search_loops_to_any, fold_local_tables, dispatch_on_constant
+    from .normalize2 import simplify_defensive, recover_loops, hoist_lambda_calls, sink_loop_exit, unroll_search_loops, search_loops_to_any, fold_local_tables, dispatch_on_constant, accumulate_to_join, propagate_string_constants, unroll_index_loops, scalarise_local_lists
 
     def style_passes(fn) -> int:
-        n = desugar(fn)
-        n += hoist_lambda_calls(fn)
-        n += simplify_defensive(fn)
-        k = hoist_lambda_calls(fn)
-        if k:
-            n += k + simplify_defensive(fn)
-        n += recover_loops(fn)
-        n += search_loops_to_any(fn)
-        n += unroll_search_loops(fn)
-        n += dispatch_on_constant(fn)
-        n += fold_local_tables(fn)
-        k = sink_loop_exit(fn)
-        if k:
-            n += k + simplify_defensive(fn)
-        return n
+        total = 0
+        for _ in range(4):
+            n = desugar(fn)
+            n += hoist_lambda_calls(fn)
+            n += simplify_defensive(fn)
+            n += recover_loops(fn)
+            n += recover_loops(fn)      # (an index loop recovered from a while loop is looked at again once it is part of the tree)
+            n += search_loops_to_any(fn)
+            n += unroll_search_loops(fn)
+            n += dispatch_on_constant(fn)
+            n += fold_local_tables(fn)
+            n += sink_loop_exit(fn)
+            n += accumulate_to_join(fn)
+            n += propagate_string_constants(fn)
+            n += unroll_index_loops(fn)
+            n += scalarise_local_lists(fn)
+            total += n
+            if not n:
+                break
+        return total
     for fi in project.funcs.values():
         inline_callable_aliases(fi.node)
         style_passes(fi.node)
